@@ -37,6 +37,13 @@ func runC04(c map[string]interface{}) []Event {
 			}
 		})
 		evs = append(evs, Event{"ev": "points", "pts": pts, "out": out})
+		// the box that Bounds returned is the caller's: it is grown here, as callers do (b := g.Bounds(); b.Extend(...)).
+		// Nothing that a later Bounds call answers may depend on that (a *Bounds is its own box, and is left alone).
+		if _, isBox := g.(*geom.Bounds); !isBox && b != nil {
+			safely(func() {
+				b.Extend(&geom.Bounds{Min: geom.Point{X: -1e6, Y: -1e6}, Max: geom.Point{X: 1e6, Y: 1e6}})
+			})
+		}
 		return evs
 	case "box2":
 		a, b := decBox(c["a"], codeDec), decBox(c["b"], codeDec)
